@@ -68,6 +68,24 @@ func checkInvariants(tApp app.TestApp, height int64, t time.Time) (route, msg st
 	return "", ""
 }
 
+// checkStoredParams: every Kava module's stored parameters pass the module's own
+// Params.Validate (after the committed block) and none of them equals a malformed value that
+// was proposed, and the proposals the next begin blocker is about to enact leave them so (see
+// world.WouldStoreInvalidParams).  nextT is the time of the next block.
+func checkStoredParams(w *world.World, tApp app.TestApp, height int64, t, nextT time.Time) (what, msg string) {
+	ctx := tApp.NewContext(true, tmproto.Header{Height: height, Time: t, ChainID: app.TestChainId})
+	if m, e := w.MalformedStored(tApp, ctx); m != "" {
+		return "stored-params-invalid:" + m, e
+	}
+	if m, e := world.StoredParamsInvalid(tApp, ctx); m != "" {
+		return "stored-params-invalid:" + m, e
+	}
+	if m, e := world.WouldStoreInvalidParams(w, tApp, height+1, nextT); m != "" {
+		return "stored-params-invalid:" + m, "enacted by the committee begin blocker of the next block: " + e
+	}
+	return "", ""
+}
+
 var digits = regexp.MustCompile(`[0-9]+`)
 
 func panicSig(p string) string {
@@ -94,6 +112,8 @@ func runHistory(seed uint64, idx, nBlocks int, cnt *Counters) (*finding, int, in
 	cfg := world.RandomConfig(r)
 	w := world.NewWorld(cfg, seed*1000+uint64(idx), cnt)
 	w.ParamChanges = true
+	w.MalformedParams = true
+	w.CommitteeTraffic = true
 	A := w.Start(NewApp())
 	height, t := int64(2), world.Genesis0
 	nTx, okTx := 0, 0
@@ -109,6 +129,9 @@ func runHistory(seed uint64, idx, nBlocks int, cnt *Counters) (*finding, int, in
 				cnt.Inc("tx-ok:" + descs[i])
 			} else {
 				cnt.Inc("tx-fail:" + descs[i])
+				if strings.HasPrefix(descs[i], "committee.submit.malformed:") {
+					cnt.Inc("malformed-param-change-refused")
+				}
 				if dbg := os.Getenv("C02_DEBUG_FAIL"); dbg != "" && strings.HasPrefix(descs[i], dbg) {
 					cnt.Inc("dbg:" + descs[i] + ":" + tr.Log)
 				}
@@ -125,7 +148,11 @@ func runHistory(seed uint64, idx, nBlocks int, cnt *Counters) (*finding, int, in
 		}
 		probe := world.TakeProbe(A, height, t)
 		height++
+		prevT := t
 		t = t.Add(world.NextGapAware(r, A, height-1, t))
+		if what, msg := checkStoredParams(w, A, height-1, prevT, t); what != "" {
+			return &finding{height - 1, what, msg, descs, cfg}, nTx, okTx, sample
+		}
 		if _, p := world.BeginC(A, height, t, cnt); p != "" {
 			if isUpgradeHalt(p) {
 				// an enacted software-upgrade plan halts the chain at its height by design
@@ -136,6 +163,17 @@ func runHistory(seed uint64, idx, nBlocks int, cnt *Counters) (*finding, int, in
 			return &finding{height, panicSig(p), p, descs, cfg}, nTx, okTx, sample
 		}
 		probe.After(A, height, t, cnt)
+		if r.Chance(1, 3) { // an akava transfer through precisebank (what an EVM value transfer does): fractional balances, reserve, remainder
+			op := w.GenFracOp(r)
+			switch res := w.ApplyFracOp(A, height, t, op); {
+			case strings.HasPrefix(res, "panic"):
+				return &finding{height, "precisebank-transfer-panics", fmt.Sprintf("%+v: %s", op, res), descs, cfg}, nTx, okTx, sample
+			case res == "":
+				cnt.Inc("hook-ok:precisebank.send")
+			default:
+				cnt.Inc("hook-fail:precisebank.send")
+			}
+		}
 		cnt.Inc("blocks")
 	}
 	return nil, nTx, okTx, sample
@@ -162,6 +200,8 @@ var gates = []string{
 	"tx-ok:committee.submit.param:cdp-collateral", "tx-ok:committee.submit.param:cdp-auction-thresholds",
 	"tx-ok:committee.submit.param:incentive-periods", "tx-ok:committee.submit.param:pricefeed-toggle-market",
 	"tx-ok:committee.submit.param:auction-durations",
+	"malformed-param-change-refused", "branch:incentive-earn-indexes-for-derivative-vault", "branch:liquid-module-delegation-gone-validator-stays",
+	"tx-ok:liquid.mint", "tx-ok:liquid.burn", "hook-ok:precisebank.send", "tx-ok:committee.submit.c2", "tx-ok:committee.submit.c3",
 }
 
 func scenarioNames() []string {
